@@ -53,7 +53,7 @@ def install_features_mask(ctx, prop='C08'):
                 fm = self.out_features_masker
                 alpha = getattr(fm, 'alpha', None)
                 if alpha is not None and not bool(torch.isfinite(alpha).all()):
-                    ctx.count('insitu_out_of_scope_nonfinite_params')
+                    ctx.count('insitu_out_of_scope_inputs')
                     return res
                 ctx.mon('c08.features_mask_contract')
                 v = res.detach()
@@ -98,7 +98,7 @@ def install_model_cost(ctx, prop='C12'):
             res = orig(self, *a, **kw)
             try:
                 if not _finite_params(self):
-                    ctx.count('insitu_out_of_scope_nonfinite_params')
+                    ctx.count('insitu_out_of_scope_inputs')
                     return res
                 ctx.mon('c12.insitu_cost_value')
                 v = res.detach() if isinstance(res, torch.Tensor) else torch.tensor(float(res))
@@ -163,7 +163,7 @@ def install_costfn_value(ctx, prop='C16'):
             res = fn(spec)
             try:
                 if not scope_ok(spec):
-                    ctx.count('insitu_out_of_scope_nonfinite_params')
+                    ctx.count('insitu_out_of_scope_inputs')
                     return res
                 ctx.mon('c16.insitu_costfn_value')
                 v = res.detach() if isinstance(res, torch.Tensor) else torch.tensor(float(res))
@@ -187,3 +187,82 @@ def install_costfn_value(ctx, prop='C16'):
     for sname, cs in builtin_specs().items():
         for pat, lst in cs.data.items():
             cs.data[pat] = [(constr, wrap(sname, fn)) for constr, fn in lst]
+
+
+def _obs_snapshot(model):
+    sd = {}
+    for k, v in model.state_dict().items():
+        sd[k] = v.detach().clone() if isinstance(v, torch.Tensor) else v
+    flags = {n: bool(m.training) for n, m in model.named_modules()}
+    rg = {n: bool(p.requires_grad) for n, p in model.named_parameters()}
+    return sd, flags, rg
+
+
+def _same_tensor(a, b):
+    if isinstance(a, torch.Tensor) and isinstance(b, torch.Tensor):
+        if a.shape != b.shape or a.dtype != b.dtype:
+            return False
+        if a.is_floating_point():
+            return bool(((a == b) | (torch.isnan(a) & torch.isnan(b))).all())
+        return bool(torch.equal(a, b))
+    return a == b
+
+
+def install_observers(ctx, prop='C18', methods=('export', 'summary', 'get_cost')):
+    """C18 in situ: every outermost call of export() / summary() / get_cost() on a PIT, MPS or SuperNet
+    model leaves its state_dict (bit-wise), the training flag of every sub-module and the
+    requires_grad flag of every parameter as they were."""
+    if 'observers' in _installed:
+        return
+    _installed.add('observers')
+    from plinio.methods import PIT, MPS, SuperNet
+    depth = {'n': 0}
+
+    def wrap(cls, mname):
+        orig = getattr(cls, mname)
+
+        def monitored(self, *a, **kw):
+            if depth['n'] > 0:
+                return orig(self, *a, **kw)
+            depth['n'] += 1
+            try:
+                try:
+                    before = _obs_snapshot(self)
+                except Exception:
+                    before = None
+                res = orig(self, *a, **kw)
+            finally:
+                depth['n'] -= 1
+            if before is None:
+                return res
+            try:
+                after = _obs_snapshot(self)
+                ctx.mon('c18.insitu_observer')
+                bad = []
+                if before[0].keys() != after[0].keys():
+                    bad.append(('state_dict-keys', sorted(set(before[0]) ^ set(after[0]))[:6]))
+                else:
+                    ch = [k for k in before[0] if not _same_tensor(before[0][k], after[0][k])]
+                    if ch:
+                        bad.append(('state_dict', ch[:6]))
+                fl = [n for n in before[1] if after[1].get(n) != before[1][n]]
+                if fl or before[1].keys() != after[1].keys():
+                    bad.append(('training-flags', fl[:6]))
+                rg = [n for n in before[2] if after[2].get(n) != before[2][n]]
+                if rg or before[2].keys() != after[2].keys():
+                    bad.append(('requires_grad', rg[:6]))
+                if bad and _once(('obs', cls.__name__, mname, str(bad)[:200])):
+                    ctx.violation('insitu-observer', {
+                        'sig': f'observer-changed-model:{cls.__name__}.{mname}:' +
+                               '+'.join(b[0] for b in bad),
+                        'model': cls.__name__, 'call': mname, 'changed': bad,
+                        'model_training': bool(self.training)}, prop=prop)
+            except Exception as e:
+                ctx.count('insitu_monitor_errors')
+                ctx.extra.setdefault('insitu_first_error', repr(e)[:200])
+            return res
+        setattr(cls, mname, monitored)
+    for c in (PIT, MPS, SuperNet):
+        for mname in methods:
+            if mname in c.__dict__ or hasattr(c, mname):
+                wrap(c, mname)
